@@ -319,6 +319,8 @@ def build_class(recorder, ctx, world, cls_params, has_extractor, opt_sets, class
         mode = ctx.extractor
         if mode == 'raises':
             raise RuntimeError('scripted metadata extractor failure')
+        if mode == 'interrupts':
+            raise ScriptedInterrupt('scripted interrupt of the metadata extractor')
         if mode == 'junk':
             return ctx.junk
         return {'user_key': 'user-meta', 'user_num': 7}
@@ -929,8 +931,11 @@ class Driver(object):
         # each created recording finalised exactly once
         for r in self.spy.created[ncreated0:]:
             nfin = len([c for c in self.spy.log[log0:] if c[0] in ('save', 'abort') and c[1] == r.id])
-            if nfin != 1:
-                self._mm(out, 'finalised', j, 1, nfin, 'save/abort calls for recording %s' % r.id)
+            # (0 only when the finalisation itself was interrupted - a BaseException of the metadata extractor, see
+            # Finalise in Recorder.tla)
+            exp_nfin = 0 if fin['decision'] == 'lost' else 1
+            if nfin != exp_nfin:
+                self._mm(out, 'finalised', j, exp_nfin, nfin, 'save/abort calls for recording %s' % r.id)
         self._idle_check(j, out)
         # -- sampling decision -------------------------------------------------------------------------------
         obs['kept'] = 'save' in got_calls
